@@ -11,6 +11,7 @@ import EqlModel.Mode
 import EqlModel.Registry
 import EqlModel.ForAll
 import EqlModel.Rules
+import EqlModel.RulesExt
 import EqlModel.Iter
 import EqlModel.Machine
 
@@ -275,11 +276,27 @@ def runRule (args : List Sexp) : Option String := do
     match vars.find? (·.1 == v) with
     | some (_, cls, raw) => mkDom W cls raw
     | none => []
-  let tree := buildRule (build bconds) tag0 kids
-  let rows := ruleRows W D tree cargs
-  -- reference: ripple-down rules on the surface program, per assignment of the declared variables
-  let spec := (allBnds D (vars.map (·.1))).filterMap fun β =>
-    (fireRule W (asgOf β) (build bconds) tag0 kids).map fun tag => (tag, termsVal W (asgOf β) cargs)
+  -- optional `(nargs (tag t..) ..)`: argument expressions per conclusion (branches that introduce variables)
+  let nargs : List (Nat × List (Term PVal)) ← match field? "nargs" args with
+    | none => pure []
+    | some es => es.mapM fun e => do
+        match e with
+        | .list (t :: ts) => pure ((← t.nat?), (← ts.mapM decTerm))
+        | _ => none
+  let argsOf : Nat → List (Term PVal) := fun tag => (nargs.lookup tag).getD cargs
+  let c0 := build bconds
+  let tree := buildRule c0 tag0 kids
+  let rows := ruleRowsA W D tree argsOf
+  -- reference: ripple-down rules on the surface program, per binding of the base variables (the variables of
+  -- the base conditions and of the default argument expressions); a block may introduce further variables (fireExtRule)
+  let baseVars := (vars.map (·.1)).filter fun v => c0.vars.contains v || (Terms.vars cargs).contains v
+  let spec := specRuleRowsExt W D baseVars c0 tag0 kids argsOf
+  if nargs.isEmpty && baseVars.length == vars.length then
+    -- every condition mentions declared base variables only: the reference the C12 theorems are about
+    let spec0 := (allBnds D (vars.map (·.1))).filterMap fun β =>
+      (fireRule W (asgOf β) c0 tag0 kids).map fun tag => (tag, termsVal W (asgOf β) cargs)
+    if renderTagged spec0 != renderTagged spec then
+      return s!"ERR the two ripple-down references disagree on {id}: {renderTagged spec0} vs {renderTagged spec}"
   return s!"{id}\tR\t{renderTagged rows}\tS\t{renderTagged spec}\tB\t{showRTree tree}"
 
 -- ---------------------------------------------------------------- lazy domains (C07, C04)
